@@ -263,6 +263,11 @@ func runBatch(rc runCfg, id string, from, to int) (out []batchResult) {
 			continue
 		}
 		out = append(out, br)
+		if next < to && len(br.cases) > 0 {
+			// the child stopped early on purpose (e.g. after a hang verdict)
+			from = next
+			continue
+		}
 		return
 	}
 	return
